@@ -148,6 +148,14 @@ pub fn gen_message(pool: &mut Vec<String>, ctr: &mut u64, nonce: u64, for_batch:
 				4 => obj(id, Some("\"2.0\""), None, gen_params(nonce), None, None),
 				5 => obj(id, Some("\"2.0\""), Some("\"echo\"".into()), None, None, Some("\"method\":\"add\"")),
 				6 => obj(id, Some("\"2.0\""), Some("\"echo\"".into()), Some("[1]".into()), None, Some("\"params\":[2]")),
+				_ if rt::chance("dup_id_member", 1, 2) => {
+					// an `id` member that occurs twice (the same value, or two different ones): not a request, and not a
+					// notification either - both values are ids the library can represent
+					let first = id.unwrap_or_else(|| gen_id(pool, ctr));
+					let second = if rt::chance("dup_id_same", 1, 2) { first.clone() } else { "424242".to_string() };
+					let dup = format!("\"id\":{second}");
+					obj(Some(first), Some("\"2.0\""), Some("\"echo\"".into()), gen_params(nonce), None, Some(dup.as_str()))
+				}
 				_ => obj(id, Some("\"2.0\""), Some("\"echo\"".into()), None, None, Some("\"jsonrpc\":\"2.0\"")),
 			}
 			.into_bytes()
